@@ -154,7 +154,7 @@ class Acts:
             return self.acts(rest, env, ind, handlers[:-1])
         if isinstance(s, ast.Expr) and isinstance(s.value, ast.Constant) and isinstance(s.value.value, str):
             return self.acts(rest, env, ind, handlers)
-        if is_logging(s) or isinstance(s, ast.Assert):
+        if is_logging(s) or isinstance(s, (ast.Assert, ast.Pass)):
             return self.acts(rest, env, ind, handlers)
         if isinstance(s, ast.Try):
             if s.orelse or s.finalbody or len(s.handlers) != 1:
@@ -183,7 +183,9 @@ class Acts:
         if isinstance(s, ast.For) and not s.orelse and isinstance(s.target, ast.Name):
             key = (self.text(s.iter), ' ; '.join(ast.unparse(b) for b in s.body).replace(s.target.id + '.', '{var}.'))
             if key in self.t.get('loops', {}):
-                return f"{pad}Prim.{self.t['loops'][key]} ::\n" + self.acts(rest, env, ind, handlers)
+                decl = self.t['loops'][key]
+                prim, raises = (decl, None) if isinstance(decl, str) else decl
+                return self.may_raise(prim, raises, ind, handlers, lambda i: self.acts(rest, env, i, handlers))
             raise Untranslatable('loop ' + ast.unparse(s)[:100])
         if isinstance(s, ast.Expr) and isinstance(s.value, ast.Await):
             k = self.text(s.value.value)
@@ -198,15 +200,20 @@ class Acts:
                 param, prim, kind = self.t['fallible'][self.text(call.func)]
                 if call is not value:
                     raise Untranslatable('a raising call inside a larger expression')
-                # the call is made; when it raises, the innermost handler takes over (or the exception leaves)
-                if handlers:
-                    exc = handlers[-1](ind + 2)
-                else:
-                    exc = '  ' * (ind + 2) + '[Prim.propagate]'
-                cont = self.stmt_effect(s, env2, ind + 2, handlers, rest, kind)
-                return f'{pad}Prim.{prim} ::\n{pad}  (if {param} then\n{exc}\n{pad}  else\n{cont})'
+                return self.may_raise(prim, param, ind, handlers,
+                                      lambda i: self.stmt_effect(s, env2, i, handlers, rest, kind))
             return self.stmt_effect(s, env2, ind, handlers, rest, None)
         raise Untranslatable('statement ' + ast.unparse(s)[:100])
+
+    def may_raise(self, prim, param, ind, handlers, cont):
+        """a primitive that may raise (`param` says whether it does): when it raises, the innermost enclosing
+        handler takes over, or the exception leaves the method; otherwise the primitive has its effect"""
+        pad = '  ' * ind
+        if param is None:
+            return f'{pad}Prim.{prim} ::\n' + cont(ind)
+        exc = handlers[-1](ind + 1) if handlers else '  ' * (ind + 1) + '[Prim.propagate]'
+        return (f'{pad}if {param} then\n{pad}  Prim.fails Prim.{prim} ::\n{exc}\n{pad}else\n'
+                f'{pad}  Prim.{prim} ::\n{cont(ind + 1)}')
 
     def stmt_effect(self, s, env, ind, handlers, rest, result_kind):
         """an assignment / expression statement whose (possibly raising) value has been computed"""
@@ -227,18 +234,20 @@ class Acts:
             decl = self.t.get('assign_prims', {}).get(p)
             if decl is None:
                 raise Untranslatable('assignment to ' + p[:80])
-            prim, want = decl
+            prim, want, raises = (tuple(decl) + (None,))[:3]
             vtext = self.text(s.value)
             ok = (vtext == want or (result_kind is not None and result_kind == want)
                   or (isinstance(s.value, ast.Name) and env.get(s.value.id) == want))
             if not ok:
                 raise Untranslatable(f'`{p} = {vtext[:40]}` (expected {want})')
-            return f'{pad}Prim.{prim} ::\n' + self.acts(rest, env, ind, handlers)
+            return self.may_raise(prim, raises, ind, handlers, lambda i: self.acts(rest, env, i, handlers))
         call = s.value
         if isinstance(call, ast.Call):
             k = self.text(call)
             if k in self.t.get('calls', {}):
-                return f"{pad}Prim.{self.t['calls'][k]} ::\n" + self.acts(rest, env, ind, handlers)
+                decl = self.t['calls'][k]
+                prim, raises = (decl, None) if isinstance(decl, str) else decl
+                return self.may_raise(prim, raises, ind, handlers, lambda i: self.acts(rest, env, i, handlers))
             if result_kind is not None:
                 return self.acts(rest, env, ind, handlers)        # the raising call as a statement of its own
         raise Untranslatable('statement ' + ast.unparse(s)[:100])
@@ -348,8 +357,16 @@ class Check:
             body = [b for b in s.body if not is_logging(b)]
             deleted = self.purge_body(body, var, dict(env, **{var: 'str'}))
             env2 = dict(env)
-            env2['#deleted'] = (f'({dom}.foldl (fun del {var} => if {deleted} then del ++ [{var}] else del) [])')
-            return self.prog(rest, env2, ind)
+            env2['#deleted'] = 'deleted'
+            uses_storage = 'storeKeys' in dom
+            head = (f'{pad}if iterRaises then\n{pad}  .error       -- iterating the storage raises\n{pad}else\n'
+                    if uses_storage else '')
+            ind2 = ind + 1 if uses_storage else ind
+            pad2 = '  ' * ind2
+            return (head + f'{pad2}let deleted := ({dom}.foldl (fun del {var} => if {deleted} then del ++ [{var}] '
+                    f'else del) [])\n'
+                    f'{pad2}if (delRaises && !deleted.isEmpty) then\n{pad2}  .error       -- the first `del` raises\n'
+                    f'{pad2}else\n' + self.prog(rest, env2, ind2 + 1))
         if isinstance(s, ast.Try) and not s.finalbody and len(s.handlers) == 1:
             return self.stamp_try(s, rest, env, ind)
         raise Untranslatable('statement ' + ast.unparse(s)[:100])
@@ -424,7 +441,11 @@ class Check:
             raise Untranslatable('after the time stamp lookup: ' + ast.unparse(st)[:80])
 
         found = after_lookup(body[1:], {'#tsval': 'entry'}, ind + 1)
-        return f"{pad}match stamp with\n{pad}| none =>\n{raised('KeyError', ind + 1)}\n{pad}| some e =>\n{found}"
+        # an exception of the storage other than KeyError is caught by `except Exception` / a bare except only
+        other = raised('Exception', ind + 1) if ('Exception' in caught or 'BaseException' in caught) \
+            else '  ' * (ind + 1) + '.error'
+        return (f"{pad}match stamp with\n{pad}| .missing =>\n{raised('KeyError', ind + 1)}\n"
+                f"{pad}| .failed =>\n{other}\n{pad}| .found e =>\n{found}")
 
 
 # --------------------------------------------------------------------------------------------- targets
@@ -435,27 +456,28 @@ def act_targets():
         dict(name='eventActs', doc='addons.AddonPersistence.event',
              node=lambda: list(fn_node(addons.AddonPersistence.event).body),
              params=[('superRaises', 'Bool'), ('persistent', 'Bool'), ('ready', 'Bool'), ('sync', 'Bool'),
-                     ('inited', 'Bool')],
+                     ('inited', 'Bool'), ('saveRaises', 'Bool')],
              bools={'self.persistent': 'persistent', 'self.sync_state': 'sync'},
              bool_calls={'self.circuit.is_ready': 'ready', 'self.is_initialized': 'inited'},
              fallible={'super().event': ('superRaises', 'superEvent', 'retval')},
              assign_prims={'self.persistent': ('disable', 'False')},
-             calls={'self.save_persistent_state()': 'save'}),
+             calls={'self.save_persistent_state()': ('save', 'saveRaises')}),
         dict(name='saveActs', doc='addons.AddonPersistence.save_persistent_state',
              node=lambda: list(fn_node(addons.AddonPersistence.save_persistent_state).body),
-             params=[('persistent', 'Bool'), ('getStateRaises', 'Bool')],
+             params=[('persistent', 'Bool'), ('getStateRaises', 'Bool'), ('writeRaises', 'Bool'), ('popRaises', 'Bool')],
              bools={'self.persistent': 'persistent'},
              fallible={'self.get_state': ('getStateRaises', 'getState', 'state')},
-             assign_prims={'self.circuit.persistent_dict[self.key]': ('setItem', 'state')},
-             calls={'self.circuit.persistent_dict.pop(self.key, None)': 'popKey'}),
+             assign_prims={'self.circuit.persistent_dict[self.key]': ('setItem', 'state', 'writeRaises')},
+             calls={'self.circuit.persistent_dict.pop(self.key, None)': ('popKey', 'popRaises')}),
         dict(name='stopActs', doc='simulator.Circuit.run_forever: the `if started_blocks:` block',
              node=find_stop_block,
-             params=[('started', 'Bool'), ('startOk', 'Bool'), ('hasStorage', 'Bool')],
+             params=[('started', 'Bool'), ('startOk', 'Bool'), ('hasStorage', 'Bool'), ('saveRaises', 'Bool'),
+                     ('writeRaises', 'Bool')],
              bools={'started_blocks': 'started', 'start_ok': 'startOk'},
              not_none={'self.persistent_dict': 'hasStorage'},
              loops={('started_blocks.intersection(self.getblocks(addons.AddonPersistence))',
-                     '{var}.save_persistent_state()'): 'saveAll'},
-             assign_prims={"self.persistent_dict['edzed-stop-time']": ('stamp', 'time.time()')},
+                     '{var}.save_persistent_state()'): ('saveAll', 'saveRaises')},
+             assign_prims={"self.persistent_dict['edzed-stop-time']": ('stamp', 'time.time()', 'writeRaises')},
              awaits={'self._stop_sblocks(started_blocks)': 'cleanup'}),
     ]
 
@@ -477,11 +499,19 @@ inductive Prim where
   | getState       -- `self.get_state()`
   | setItem        -- `persistent_dict[self.key] = <the state just obtained>`
   | popKey         -- `persistent_dict.pop(self.key, None)`
-  | propagate      -- an exception of a call outside any `try` leaves the method
+  | propagate      -- an exception of a call / storage operation outside any `try` leaves the method
+  | fails (p : Prim)   -- the call / storage operation was attempted and raised (no effect)
   | saveAll        -- `for blk in started_blocks.intersection(<persistent-capable blocks>): blk.save_persistent_state()`
   | stamp          -- `self.persistent_dict['edzed-stop-time'] = time.time()`
   | cleanup        -- `await self._stop_sblocks(started_blocks)`: the first await of the stop
-  deriving DecidableEq, Repr
+  deriving Repr
+
+/-- the read of `self.persistent_dict['edzed-stop-time']` -/
+inductive StampRead where
+  | missing                 -- KeyError
+  | failed                  -- the storage raises something else
+  | found (e : Entry)
+  deriving Repr
 
 /-- what `Circuit._check_persistent_data` decides -/
 inductive CheckOut where
@@ -517,11 +547,11 @@ def main(outfile, py2lean):
         from edzed import simulator
         fn = fn_node(simulator.Circuit._check_persistent_data)
         body = Check().prog(list(fn.body), {}, 1)
-        return ('def checkPersistentData (hasStorage : Bool) (stamp : Option Entry) (storeKeys : List String) '
-                '(blocks : List Blk) : CheckOut :=\n' + body)
+        return ('def checkPersistentData (hasStorage : Bool) (stamp : StampRead) (storeKeys : List String) '
+                '(blocks : List Blk) (iterRaises delRaises : Bool) : CheckOut :=\n' + body)
 
     py2lean.emit(L, dict(name='checkPersistentData', doc='simulator.Circuit._check_persistent_data'),
                  wrap(translate_check),
-                 ' (`stamp`: the entry under \'edzed-stop-time\', `none` = KeyError; a float is `Entry.ts`)')
+                 ' (`stamp`: the read of the entry under \'edzed-stop-time\'; a float is `Entry.ts`)')
     L.append('end Edzed.Gen.TrP2')
     py2lean.write_if_changed(outfile, '\n'.join(L) + '\n')
